@@ -196,7 +196,7 @@ theorem IsZT.mulN {x : ℕ → K} {r : ZR K} (h : IsZT x r) :
 theorem toPS_one : toPS ([1] : List K) = 1 := by simp [toPS_cons]
 theorem toPS_one_sub : toPS ([1, -1] : List K) = 1 - X := by simp [toPS_cons]; ring
 
-theorem isZT_imp_nonneg (d : ℤ) (hd : 0 ≤ d) :
+theorem isZT_imp (d : ℤ) (hd : 0 ≤ d) :
     IsZT (fun n : ℕ => (Base.imp d : Base K).val n) (ztBase (.imp d)) := by
   refine ⟨by simp [ztBase, hd], ?_, by simp [ztBase, hd]⟩
   simp only [ztBase, hd, ↓reduceIte, toPS_one, one_mul, toPS_pshift, mul_one]
@@ -206,7 +206,7 @@ theorem isZT_imp_nonneg (d : ℤ) (hd : 0 ≤ d) :
   apply propext
   constructor <;> intro h <;> omega
 
-theorem isZT_step_nonneg (d : ℤ) (hd : 0 ≤ d) :
+theorem isZT_step (d : ℤ) (hd : 0 ≤ d) :
     IsZT (fun n : ℕ => (Base.step d : Base K).val n) (ztBase (.step d)) := by
   refine ⟨by simp [ztBase, hd], ?_, by simp [ztBase, hd]⟩
   simp only [ztBase, hd, ↓reduceIte, toPS_one, toPS_pshift, mul_one]
@@ -228,25 +228,6 @@ theorem isZT_one : IsZT (fun n : ℕ => (Base.one : Base K).val n) (ztBase .one)
     have h : (0:ℤ) ≤ (n:ℤ) + 1 := by omega
     simp [h]
 
-
-theorem isZT_imp (d : ℤ) : IsZT (fun n : ℕ => (Base.imp d : Base K).val n) (ztBase (.imp d)) := by
-  by_cases hd : 0 ≤ d
-  · exact isZT_imp_nonneg d hd
-  · refine ⟨by simp [ztBase, hd], ?_, by simp [ztBase, hd]⟩
-    ext n
-    have : ¬ ((n : ℤ) = d) := by omega
-    simp [ztBase, hd, coeff_toPS_mul, bsum, extZ, Base.val, this]
-
-theorem isZT_step (d : ℤ) : IsZT (fun n : ℕ => (Base.step d : Base K).val n) (ztBase (.step d)) := by
-  by_cases hd : 0 ≤ d
-  · exact isZT_step_nonneg d hd
-  · have h1 := isZT_one (K := K)
-    have e : (fun n : ℕ => (Base.step d : Base K).val n) = fun n : ℕ => (Base.one : Base K).val n := by
-      funext n
-      have : d ≤ (n : ℤ) := by omega
-      simp [Base.val, this]
-    rw [e]
-    simpa [ztBase, hd] using h1
 
 theorem rot_rec (cb sb : K) (h : cb ^ 2 + sb ^ 2 = 1) (n : ℕ) :
     (rotPow cb sb (n + 2)).1 = (cb + cb) * (rotPow cb sb (n + 1)).1 - (rotPow cb sb n).1 ∧
@@ -293,19 +274,19 @@ theorem isZT_sin (cb sb cc sc : K) (h : cb ^ 2 + sb ^ 2 = 1) :
     ring
 
 
-/-- side condition under which the closed form of a base sequence is claimed:
-    `cos b, sin b` lie on the unit circle (impulses and steps: any integer delay or advance) -/
+/-- side condition under which the closed form of a base sequence is claimed: delays are
+    non-negative (advances are finding F17); `cos b, sin b` lie on the unit circle -/
 def Base.ok : Base K → Prop
-  | .imp _ => True
-  | .step _ => True
+  | .imp d => 0 ≤ d
+  | .step d => 0 ≤ d
   | .one => True
   | .cos cb sb _ _ => cb ^ 2 + sb ^ 2 = 1
   | .sin cb sb _ _ => cb ^ 2 + sb ^ 2 = 1
 
 theorem isZT_base (b : Base K) (h : b.ok) : IsZT (fun n : ℕ => b.val n) (ztBase b) := by
   cases b with
-  | imp d => exact isZT_imp d
-  | step d => exact isZT_step d
+  | imp d => exact isZT_imp d h
+  | step d => exact isZT_step d h
   | one => exact isZT_one
   | cos cb sb cc sc => exact isZT_cos cb sb cc sc h
   | sin cb sb cc sc => exact isZT_sin cb sb cc sc h
